@@ -95,7 +95,7 @@ def Accessor.get (a : Accessor) (container : Obj) : EvalM Obj :=
   match a, container with
   | .pos i, .list xs => pure (listGet xs i)
   | .key k, .map kvs => pure ((alookup k kvs).getD Obj.undefined)
-  | _, c => if c.isUndefined then pure c else throw "index operator not supported"
+  | _, c => if c.isUndefined then pure c else pure Obj.undefined   -- a path into a scalar names nothing
 
 /-- `strconv.Atoi` on a token literal: digits only (signs are separate tokens); literals
     that overflow `int` are outside the modelled domain -/
@@ -208,6 +208,11 @@ def fnSize (path : Obj) : EvalM Obj :=
   match path with
   | .str s => pure (.num (F64.ofNat s.length))
   | .bin s => pure (.num (F64.ofNat s.length))
+  | .list xs => pure (.num (F64.ofNat xs.length))
+  | .map kvs => pure (.num (F64.ofNat kvs.length))
+  | .sset xs => pure (.num (F64.ofNat xs.length))
+  | .nset xs => pure (.num (F64.ofNat xs.length))
+  | .bset xs => pure (.num (F64.ofNat xs.length))
   | _ => throw "type not supported: size"
 
 /-- the `functions` table: arity and `ForUpdate` -/
@@ -275,9 +280,10 @@ mutual
       let operand (t : Token) : EvalM Obj := do
         let v ← evalIdentifier t env true
         if !isComparableType v.type && !v.isUndefined then throw "unexpected type" else pure v
-      let v ← match identOf left with
-        | some t => operand t
-        | none => throw "identifier expected"
+      let v ← match left with
+        | .ident t => operand t
+        | .index op l idx => evalIndex env (.index op l idx)      -- evalPathOperand
+        | _ => throw "identifier expected"
       let mn ← operand lo
       let mx ← operand hi
       if v.isUndefined || mn.isUndefined || mx.isUndefined then pure (bool false)
@@ -287,9 +293,10 @@ mutual
         let b ← evalComparable .lte v mx
         evalInfix .and a b
     | .isIn left range => do
-      let v ← match identOf left with
-        | some t => evalIdentifier t env true
-        | none => throw "identifier expected"
+      let v ← match left with
+        | .ident t => evalIdentifier t env true
+        | .index op l idx => evalIndex env (.index op l idx)      -- evalPathOperand
+        | _ => throw "identifier expected"
       let objs ← evalInRange env v range
       if v.isUndefined then pure (bool false)
       else pure (bool (objs.any fun e => equalObject v e))
@@ -321,6 +328,7 @@ end
 
 /-- `evalConditional` -/
 def evalCondition (env : Env) (e : Expr) : EvalM Bool := do
+  if (identOf e).isSome then throw "syntax error: a lone attribute is not a condition"
   let o ← eval env e
   match o with
   | .bool b => pure b
@@ -377,6 +385,14 @@ def modifyAt (f : Obj → EvalM Obj) : List Accessor → Obj → EvalM Obj
       pure (.map (ainsert k o' kvs))
     | none => throw "index assignation/removal for NULL is not supported"
   | _ :: _, _ => throw "index operator not supported"
+
+/-- the unchecked walk of `evalActionRemove` (`obj = pos.Get(obj)` for all but the first position,
+    from the root outwards): what `Get` answers, an error object being treated like any value -/
+def walkLoose (o : Obj) : List Accessor → EvalM Obj
+  | [] => pure o
+  | a :: rest => do
+    let o' ← walkLoose o rest
+    a.get o'
 
 /-- `indexAccessor.Set` on the container that holds the target -/
 def Accessor.setIn (a : Accessor) (v : Obj) (container : Obj) : EvalM Obj :=
@@ -452,6 +468,12 @@ def deleteFrom (o v : Obj) : EvalM Obj :=
     | _ => throw "Incorrect operand type"
   | _ => throw "an operand in the update expression has an incorrect data type"
 
+def isEmptySet : Obj → Bool
+  | .sset xs => xs.isEmpty
+  | .nset xs => xs.isEmpty
+  | .bset xs => xs.isEmpty
+  | _ => false
+
 /-- `evalAction` with the right-hand side already evaluated -/
 def evalAction (env : Env) (op : Tok) (left : Expr) (val : Obj) : EvalM Env :=
   match op with
@@ -484,7 +506,9 @@ def evalAction (env : Env) (op : Tok) (left : Expr) (val : Obj) : EvalM Env :=
       | _ => do
         let o' ← deleteFrom o val
         let n := env.resolveName t.lit
-        pure ({ env.markModified t.lit with store := ainsert n o' env.store })
+        let env' := { env.markModified t.lit with store := ainsert n o' env.store }
+        -- a set that became empty is removed
+        pure (if isEmptySet o' then env'.remove t.lit else env')
     | _ => pure env
   | .remove =>
     match left with
@@ -493,7 +517,10 @@ def evalAction (env : Env) (op : Tok) (left : Expr) (val : Obj) : EvalM Env :=
       pure (env.remove t.lit)
     | .index _ _ _ => do
       let (ps, root, o) ← evalIndexPositions env left
-      modifyPath env root o ps (fun a c => a.removeIn c)
+      -- the container of the target, reached with `Get` (unchecked); undefined: nothing to remove
+      let container ← walkLoose o (ps.drop 1)
+      if container.isUndefined then pure env
+      else modifyPath env root o ps (fun a c => a.removeIn c)
     | _ => throw "invalid remove"
   | _ => throw "unknown update action type"
 
